@@ -7,7 +7,7 @@ import progprop
 from gen import types as T
 from gen.programs import INT, BOOL, STR, FLOAT, VOID, tup, fn, iter_of, arr, cell, multi
 
-THM_MODULES = ["SslModel.Thm.C12"]
+THM_MODULES = ["SslModel.Thm.C12", "SslModel.Thm.C12Loops"]
 TRANSLATE_PARTS = ["scalar"]
 
 I = lambda n: ("i", n)
